@@ -225,6 +225,12 @@ func CmdCheck(args []string) int {
 		results = append(results, r)
 		funcs = append(funcs, b.Name)
 	}
+	// frame / effect / containment summaries (scan obligations)
+	scanRes, scanAssumes := P.ScanObligations(*prop)
+	if len(scanRes.Obligs) > 0 {
+		results = append(results, scanRes)
+		funcs = append(funcs, "module-wide summaries (global writes, stdout, panic containment, immutability)")
+	}
 	tGen := time.Since(t0).Seconds()
 	Discharge(results, timeout, 16)
 	fmt.Printf("timing: load+generate %.1fs, discharge %.1fs\n", tGen, time.Since(t0).Seconds()-tGen)
@@ -297,7 +303,7 @@ func CmdCheck(args []string) int {
 			continue
 		}
 		rp := filepath.Join(replayDir, sanitize(*prop+"_"+o.Name)+".json")
-		rec := map[string]interface{}{"property": *prop, "obligation": o.Name, "kind": o.Kind, "path": o.Path, "goal": o.Goal,
+		rec := map[string]interface{}{"property": *prop, "obligation": o.Name, "kind": o.Kind, "path": o.Path, "goal": o.Goal, "detail": o.Where,
 			"solver_answer": o.Ans.Result, "solver": o.Ans.Solver, "solver_output": trunc(o.Ans.Raw, 4000), "model": trunc(o.Ans.Model, 20000),
 			"query_file": rp + ".smt2"}
 		os.WriteFile(rp+".smt2", []byte(BuildQuery(f.r.Decls, o)+"(check-sat)\n(get-model)\n"), 0o644)
@@ -378,6 +384,7 @@ func CmdCheck(args []string) int {
 	for _, t := range trusted {
 		assumptions = append(assumptions, "contract assumed, not verified (trusted): "+t)
 	}
+	assumptions = append(assumptions, scanAssumes...)
 	assumptions = append(assumptions, GlobalAssumptions...)
 	sort.Strings(funcs)
 	cov := map[string]interface{}{
